@@ -11,5 +11,5 @@ CONSTANTS
   Spurious = FALSE
   Interrupts = FALSE
   Bug = "wrongfail"
-INVARIANTS ViewIsFunctionOfMoved StreamExact ReadWriteComplete RecvSendBounds NoHangPastTimeout WaitsOnlyForData
+INVARIANTS ReadWriteComplete RecvSendBounds
 CHECK_DEADLOCK FALSE
